@@ -165,7 +165,7 @@ func (e *Engine) verifyFunction(fn *ssa.Function, ct *Contract) {
 				st2.pc = st2.pc[:save]
 			}
 			for _, en := range c.Ensures {
-				if c != ct && hasTag(en.Tags, "ghost") {
+				if hasTag(en.Tags, "ghost") {
 					continue // ghost call records of an interface contract are not obligations of an implementation
 				}
 				v, err := ctx.evalAs(en.E, sBool)
@@ -192,7 +192,20 @@ func (e *Engine) verifyFunction(fn *ssa.Function, ct *Contract) {
 					oi.Path = pathID
 					goal = or(rv.T, goal)
 				}
-				o := e.addObligation(st2, fr, "ensures", en.Tags, en.Src, fmt.Sprintf("%s:%d", en.File, en.Line), goal, probes)
+				tags := en.Tags
+				if c != ct && len(tags) == 0 {
+					// clauses of a refined (interface) contract belong to every property the implementation's own clauses name
+					seen := map[string]bool{}
+					for _, own := range ct.Ensures {
+						for _, t := range own.Tags {
+							if !seen[t] {
+								seen[t] = true
+								tags = append(tags, t)
+							}
+						}
+					}
+				}
+				o := e.addObligation(st2, fr, "ensures", tags, en.Src, fmt.Sprintf("%s:%d", en.File, en.Line), goal, probes)
 				o.Path = pathID
 				o.Prefer = prefs
 			}
@@ -256,9 +269,7 @@ func (e *Engine) queryPrefixOpt(st *State, dropQuant bool) string {
 		b.WriteString(d)
 		b.WriteByte('\n')
 	}
-	for _, a := range e.axiomTexts() {
-		b.WriteString("(assert " + a + ")\n")
-	}
+	b.WriteString(axiomMarker + "\n")
 	for _, p := range st.pc {
 		if dropQuant && (strings.Contains(p, "(forall ") || strings.Contains(p, "(exists ")) {
 			continue
@@ -295,7 +306,28 @@ func (e *Engine) specDecls() string {
 }
 
 var axiomCache []string
+var axiomSyms [][]string
 var axiomDone bool
+
+// relevantAxioms: an axiom is included in a query only if the query mentions one of the spec functions the
+// axiom is about (so quantified axioms of one vocabulary do not turn every other query into `unknown`).
+func (e *Engine) relevantAxioms(query string) []string {
+	all := e.axiomTexts()
+	var out []string
+	for i, a := range all {
+		if len(axiomSyms[i]) == 0 {
+			out = append(out, a)
+			continue
+		}
+		for _, s := range axiomSyms[i] {
+			if strings.Contains(query, "("+s+" ") {
+				out = append(out, a)
+				break
+			}
+		}
+	}
+	return out
+}
 
 func (e *Engine) axiomTexts() []string {
 	if axiomDone {
@@ -311,6 +343,13 @@ func (e *Engine) axiomTexts() []string {
 			continue
 		}
 		axiomCache = append(axiomCache, v.T)
+		var syms []string
+		for n, f := range e.specs.Funcs {
+			if f.Def == nil && !preambleFuncs[n] && strings.Contains(v.T, "("+n+" ") {
+				syms = append(syms, n)
+			}
+		}
+		axiomSyms = append(axiomSyms, syms)
 	}
 	if len(scratch.decls) > 0 {
 		e.errorf("axioms must not mention program state (declared: %v)", scratch.decls)
@@ -326,7 +365,7 @@ func (e *Engine) addObligation(st *State, fr *Frame, kind string, tags []string,
 		Func: e.curFn.String(), Kind: kind, Tags: tags, Clause: clause, Where: where,
 		Trail: strings.Join(st.trail, " "), Expect: "unsat", Probes: probes,
 	}
-	o.Query = e.queryPrefix(st) + "(assert (not " + goal + "))\n"
+	o.Query = e.finishQuery(e.queryPrefix(st)+"(assert (not "+goal+"))\n", false)
 	o.ID = fmt.Sprintf("%s/%s/%d", shortName(e.curFn.String()), kind, len(e.obls)+1)
 	e.obls = append(e.obls, o)
 	return o
@@ -341,7 +380,7 @@ func (e *Engine) addObligationExpectPath(st *State, fr *Frame, kind string, tags
 		Func: e.curFn.String(), Kind: kind, Tags: tags, Clause: clause, Where: where,
 		Trail: strings.Join(st.trail, " "), Expect: expect, Path: path,
 	}
-	o.Query = e.queryPrefixOpt(st, true)
+	o.Query = e.finishQuery(e.queryPrefixOpt(st, true), true)
 	o.ID = fmt.Sprintf("%s/%s/%d", shortName(e.curFn.String()), kind, len(e.obls)+1)
 	e.obls = append(e.obls, o)
 	return o
@@ -506,7 +545,7 @@ func (e *Engine) havocLoop(fr *Frame, st *State, hdr *ssa.BasicBlock, c *Contrac
 				ct = e.lookup(k)
 			}
 			if ct != nil && (callee == nil || ct.Opts["inline"] == "") {
-				for _, m := range ct.Modifies {
+				for _, m := range append(append([]string{}, ct.Modifies...), ct.GhostMod...) {
 					switch {
 					case e.specs.Ghosts[m] != nil:
 						ghosts[m] = true
@@ -642,6 +681,25 @@ func hasTag(tags []string, t string) bool {
 		}
 	}
 	return false
+}
+
+const axiomMarker = ";;AXIOMS;;"
+
+// finishQuery inserts the relevant axioms (decided on the whole query text, goal included).
+func (e *Engine) finishQuery(q string, dropQuant bool) string {
+	var ax strings.Builder
+	if !dropQuant {
+		for _, a := range e.relevantAxioms(q) {
+			ax.WriteString("(assert " + a + ")\n")
+		}
+	} else {
+		for _, a := range e.relevantAxioms(q) {
+			if !strings.Contains(a, "(forall ") && !strings.Contains(a, "(exists ") {
+				ax.WriteString("(assert " + a + ")\n")
+			}
+		}
+	}
+	return strings.Replace(q, axiomMarker+"\n", ax.String(), 1)
 }
 
 var preambleFuncs = map[string]bool{"fmt_d": true, "fmt_du": true, "fmt_03d": true, "fieldref": true, "boxref": true, "slen": true, "sat": true, "scat": true, "ssub": true}
